@@ -26,8 +26,8 @@ ASSUMPTIONS = [
 ]
 PLAN = {"quick": dict(topologies=1600, D=12), "thorough": dict(topologies=6000, D=150)}
 WATCHDOG_S = {"thorough": 10000}
-FLOORS = {"quick": {"retries_after_rejection": 15000, "constructions": 10000, "depth_values_checked": 60000, "values_at_max_depth": 8000, "codec_roundtrips": 50000, "topologies_with_direct_edges": 150, "hybrid_inputs": 2500, "alias_depth_values_checked": 1200},
-          "thorough": {"retries_after_rejection": 70000, "constructions": 40000, "depth_values_checked": 250000, "values_at_max_depth": 35000, "codec_roundtrips": 200000, "topologies_with_direct_edges": 500, "hybrid_inputs": 15000, "alias_depth_values_checked": 5000}}
+FLOORS = {"quick": {"topologies_with_wrapped_edges": 300, "retries_after_rejection": 15000, "constructions": 10000, "depth_values_checked": 60000, "values_at_max_depth": 8000, "codec_roundtrips": 50000, "topologies_with_direct_edges": 150, "hybrid_inputs": 2500, "alias_depth_values_checked": 1200},
+          "thorough": {"topologies_with_wrapped_edges": 1200, "retries_after_rejection": 70000, "constructions": 40000, "depth_values_checked": 250000, "values_at_max_depth": 35000, "codec_roundtrips": 200000, "topologies_with_direct_edges": 500, "hybrid_inputs": 15000, "alias_depth_values_checked": 5000}}
 
 
 def is_cyclic(n, es):
@@ -237,7 +237,14 @@ def run_shard(sh):
         else:
             edges = [(a, b, rng.choice(topo.CLOSING_KINDS)) for a, b in es]
         flavour = rng.choice(["dataclass", "dataclass", "namedtuple", "typeddict"])
-        tp = topo.Topology(n, edges, nested=rng.random() < 0.25, flavour=flavour, tag=f"c07_{sh.shard}_{i}", payload=rng.random() < 0.8, style=rng.choice(["postponed", "quoted"]))
+        wrapped = {}
+        if rng.random() < 0.3:
+            # the way back into the cycle (or on to the next class) leads through a NewType / alias of the target class
+            for e in rng.sample(edges, min(len(edges), rng.randrange(1, 3))):
+                wrapped[e] = rng.choice(["newtype", "alias"])
+            sh.count("topologies_with_wrapped_edges")
+        tp = topo.Topology(n, edges, nested=rng.random() < 0.25, flavour=flavour, tag=f"c07_{sh.shard}_{i}", payload=rng.random() < 0.8, style=rng.choice(["postponed", "quoted"]),
+                           wrapped_edges=wrapped)
         tp.build()
         label = f"{flavour} {'nested ' if tp.nested else ''}{n}-class {edges}"
         try:
